@@ -4,8 +4,14 @@ import Mathlib.Algebra.BigOperators.Group.List.Basic
 /-
   OSq.Proofs.CircuitSem — congruence theorems for the register-level circuit semantics `circOp` / `CircEquiv`
   (`OSq/Sem/Circuit.lean`): local (per-gate) operator equalities lift to whole-circuit equivalence with ONE
-  global phase for ALL measurement / reset outcome assignments.   (Parts 1 and 2 of the circuit-semantics work;
-  the local-to-global embedding `lift` is in `CircuitSem2`, `decompose_sem`/`map_sem` in `CircuitSem3`, …)
+  global phase for ALL measurement / reset outcome assignments.   Parts 1 and 2 of the circuit-semantics work; the
+  rest is split by topic to keep every file fast to check:
+    `CircuitSem2`  the local-to-global embedding `lift`, `gateOp_eq_lift`, `local_phase_eq_global`
+    `CircuitSem3`  `decompose_sem`, `decompose_fail_sem`          `CircuitSem8`  `replace_sem`, `replace_fail_sem`
+    `CircuitSem4`  `map_sem` (qubit relabelling = conjugation by the qubit permutation), `remap_sem`
+    `CircuitSem5`  `commute_disjoint` (statements on disjoint qubits commute)
+    `CircuitSem6`  `merge_sem_global` (abstract merge theorem instantiated with `stmtOp` modulo phase)
+    `CircuitSem7`  `merge_sem_global_real` (the same under the analytic crisp hypotheses of `MergeSemReal`)
 
   Theorems
   * `circOp_append`        `circOp n (s1 ++ s2) o = circOp n s2 (o.drop (nOutcomes s1)) * circOp n s1 (o.take (nOutcomes s1))`
